@@ -18,6 +18,7 @@ CONSTANTS WIDTHS, STARTS, PAIRW    \* PAIRW: widths up to which all two-draw log
 (* picks a residue class, stage 2 a width of that class; the invariants are   *)
 (* evaluated on the stage-2 states by all workers.                            *)
 NPART == 16
+AllBelow2p16 == 1..65535       \* for cfg: WIDTHS <- AllBelow2p16
 VARIABLES width, part
 Init == width = 0 /\ part = 0
 Next == \/ part = 0 /\ part' \in 1..NPART /\ UNCHANGED width
@@ -58,6 +59,19 @@ Loop == Ready =>
            IN res.ok <=> (tab[r1] >= width /\ tab[r2] < width)
     /\ ~Randrange(s, s + width, <<>>).ok
     /\ ~Randrange(s, s + width, << [req |-> n + 1, got |-> Zeros(n + 1)] >>).ok
+(* Compositional argument for EVERY width below 2^16 (too many to enumerate    *)
+(* draw by draw): MaskLemma - for each number of bytes n and each top-byte     *)
+(* mask 2^k - 1, masking the first byte of an n-byte draw r gives              *)
+(* r mod 2^(8(n-1)+k), for all 256^n draws (it does not depend on the width);  *)
+(* ShapeAll - for every width the mask and byte count are the ones with        *)
+(* 8(n-1)+k = bits(width) and 2^(bits-1) <= width < 2^bits.  Together: the     *)
+(* candidate is uniform on [0, 2^bits) and accepted iff below width.           *)
+MaskLemma ==
+  (width = 1 /\ part = 1) =>        \* evaluated once
+    \A n \in 1..2, k \in 1..8 :
+      \A r \in 0..(Pow2(8 * n) - 1) :
+        CandidateM(NToBytes(r, n), Pow2(k)) = r % Pow2(8 * (n - 1) + k)
+
 (* Ed25519: exactly one request of 64 bytes, reduced mod L                     *)
 ASSUME EdRandomScalar(5, << [req |-> 64, got |-> Zeros(63) \o <<13>>] >>) = SamplerOK(3)
 ASSUME ~EdRandomScalar(5, << [req |-> 32, got |-> Zeros(32)] >>).ok
